@@ -287,7 +287,7 @@ def execute(plan, tape):
 
 def check_result(plan, res, out, refs, R):
     import pandas as pd
-    if not isinstance(out, list) or len(out) != R:
+    if not isinstance(out, (list, tuple)) or len(out) != R:
         res.violate('shape-mismatch', 'length',
                     'expected a list of %d tables, got %s of length %s'
                     % (R, type(out).__name__, len(out) if hasattr(out, '__len__') else '?'))
